@@ -1,7 +1,7 @@
 (* C08 - Guards: cond/unless conjunction and Python-faithful boolean expressions.  Statements only. *)
 From Coq Require Import List Arith Bool ZArith.
 Import ListNotations.
-From PySM Require Import Impl.Engine Impl.Guards Proofs.EngineProofs Proofs.GuardsProofs Proofs.GuardsValue Impl.Replace Proofs.ReplaceProofs.
+From PySM Require Import Impl.Engine Impl.Guards Proofs.EngineProofs Proofs.GuardsProofs Proofs.GuardsValue Proofs.GuardsChain Impl.Replace Proofs.ReplaceProofs.
 
 (* ---- the guard list of a transition is a conjunction, evaluated in order ---- *)
 (* [AllHold g x ws c c']: evaluating the entries [ws] in order from [c], every one holds *)
@@ -78,6 +78,36 @@ Theorem C08_guard_entry_is_python_for_every_expression :
       end.
 Proof. exact guard_is_python_all. Qed.
 Print Assumptions C08_guard_entry_is_python_for_every_expression.
+
+(* ---- chained comparisons, read sequence included ---- *)
+(* for EVERY expression (chains of any length at any depth) the library's closure tree has the
+   value, the TypeError and the sequence of name reads that Python has for the expression in which
+   every chain  a op1 b op2 c ...  is written as the conjunction of its adjacent pairs
+   (a op1 b) and (b op2 c) and ... ; without chains that is the expression itself *)
+Theorem C08_chain_is_conjunction_of_adjacent_pairs :
+  forall rho e, eval_closure rho (build e) = py_eval rho (desugar e).
+Proof. exact build_is_python_of_desugared. Qed.
+Print Assumptions C08_chain_is_conjunction_of_adjacent_pairs.
+
+Theorem C08_nothing_rewritten_without_chains :
+  forall e, chain_free e = true -> desugar e = e.
+Proof. exact desugar_chain_free. Qed.
+Print Assumptions C08_nothing_rewritten_without_chains.
+
+Theorem C08_chain_reads_middle_operand_once_per_comparison :
+  forall rho a b c op1 op2,
+    py_cmp op1 (rho a) (rho b) = Some true ->
+    snd (eval_closure rho (build (ECmp (EName a) [(op1, EName b); (op2, EName c)]))) = [a; b; b; c].
+Proof. exact chain3_reads. Qed.
+Print Assumptions C08_chain_reads_middle_operand_once_per_comparison.
+
+Theorem C08_chain_stops_at_first_false_comparison :
+  forall rho a b c op1 op2,
+    py_cmp op1 (rho a) (rho b) = Some false ->
+    eval_closure rho (build (ECmp (EName a) [(op1, EName b); (op2, EName c)])) = (EV (VBool false), [a; b]).
+Proof. exact chain3_reads_short. Qed.
+Print Assumptions C08_chain_stops_at_first_false_comparison.
+
 
 (* ---- the textual layer: replace_operators (! ^ v -> not / and / or), on character codes ---- *)
 (* names are never rewritten: any run of at least two word characters - valve, v2, not_v, 10 - is
